@@ -61,19 +61,21 @@ Print Assumptions C09_declared_versions.
 (* ---------------------------------------------------------------- non-vacuity over the current source *)
 Definition K (l : list N) : kind := {| k_feats := mask_of l; k_ver := Some LATEST_PROBLEM_KIND_VERSION |}.
 
+(* (top-level definitions rather than `let … in` in the statement: coqchk 8.16 rejects the VM-cast proof term of a
+   let-bound statement with "Type error: ActualType" although the kernel accepts it) *)
+Definition ex_prefs := ["up_quantifiers_remover"; "up_negative_conditions_remover"]%string.
+Definition ex_k0 := K [f_ACTION_BASED; f_EXISTENTIAL_CONDITIONS; f_NEGATIVE_CONDITIONS; f_EQUALITIES; f_FLAT_TYPING].
+Definition ex_k1 := K [f_ACTION_BASED; f_DISJUNCTIVE_CONDITIONS; f_NEGATIVE_CONDITIONS; f_EQUALITIES; f_FLAT_TYPING].
+Definition ex_k2 := K [f_ACTION_BASED; f_DISJUNCTIVE_CONDITIONS; f_EQUALITIES; f_FLAT_TYPING].
 Example C09_pipeline_accepts_nonvacuous :
-  let prefs := ["up_quantifiers_remover"; "up_negative_conditions_remover"]%string in
-  let k0 := K [f_ACTION_BASED; f_EXISTENTIAL_CONDITIONS; f_NEGATIVE_CONDITIONS; f_EQUALITIES; f_FLAT_TYPING] in
-  let k1 := K [f_ACTION_BASED; f_DISJUNCTIVE_CONDITIONS; f_NEGATIVE_CONDITIONS; f_EQUALITIES; f_FLAT_TYPING] in
-  let k2 := K [f_ACTION_BASED; f_DISJUNCTIVE_CONDITIONS; f_EQUALITIES; f_FLAT_TYPING] in
-  pipeline gen_tables builtin_engines prefs None [ck_QUANTIFIERS_REMOVING; ck_NEGATIVE_CONDITIONS_REMOVING] k0
-  = Pipe [("up_quantifiers_remover"%string, E_up_quantifiers_remover, k0);
-          ("up_negative_conditions_remover"%string, E_up_negative_conditions_remover, k1)] k2
+  pipeline gen_tables builtin_engines ex_prefs None [ck_QUANTIFIERS_REMOVING; ck_NEGATIVE_CONDITIONS_REMOVING] ex_k0
+  = Pipe [("up_quantifiers_remover"%string, E_up_quantifiers_remover, ex_k0);
+          ("up_negative_conditions_remover"%string, E_up_negative_conditions_remover, ex_k1)] ex_k2
   /\ Forall2 (within gen_tables LATEST_PROBLEM_KIND_VERSION)
-             [k0; K [f_ACTION_BASED; f_NEGATIVE_CONDITIONS; f_FLAT_TYPING]]    (* an actual stage-1 kind strictly below k1 *)
-             [("up_quantifiers_remover"%string, E_up_quantifiers_remover, k0);
-              ("up_negative_conditions_remover"%string, E_up_negative_conditions_remover, k1)].
+             [ex_k0; K [f_ACTION_BASED; f_NEGATIVE_CONDITIONS; f_FLAT_TYPING]]    (* an actual stage-1 kind strictly below ex_k1 *)
+             [("up_quantifiers_remover"%string, E_up_quantifiers_remover, ex_k0);
+              ("up_negative_conditions_remover"%string, E_up_negative_conditions_remover, ex_k1)].
 Proof.
-  cbv zeta. split; [vm_compute; reflexivity|].
+  split; [vm_compute; reflexivity|].
   repeat constructor; vm_compute; reflexivity.
 Qed.
